@@ -227,6 +227,8 @@ def run(ctx) -> None:
     ctx.rule('T4', 'wellfield cost = per-well costs x well counts, x 1.05 with laterals on the correlation path')
     ctx.rule('T5', 'totals are final before cash-flow, NPV, levelized-cost and add-on code reads them')
     ctx.rule('T7', 'T1-T5 hold for the sibling SBTEconomics.Calculate as well')
+    ctx.rule('T6', 'cost lines of the report print the component their label names (injection/production wording, registry-named labels)')
+    ctx.rule('T8', 'a supplied figure is stored by the reader unless it equals the current value (no return on "equals the default")')
     repo = ctx.repo
     econ = repo.method('Economics', 'Calculate', 'geophires_x/Economics.py')
     check_totals(ctx, econ, 'Economics')
@@ -236,5 +238,22 @@ def run(ctx) -> None:
     for o in ctx.obligations[before:]:
         o['rule'] = o['rule'] if o['rule'] != 'T5' else 'T5'
     ctx.ok('T7', 'SBTEconomics.Calculate/sibling-checked', sbt.where, f'{len(ctx.obligations) - before} obligations re-checked on the sibling')
-    ctx.undecided('numeric values of the cost correlations', 'per-well cost lines of the report (label/value agreement is C09 W2)')
-    ctx.assume('the report prints the component attributes named in the rule (checked by C09)')
+    # "exactly that figure is used": the reader must store a supplied figure (shared with C07 V9)
+    from gxstat.runner import Renamed
+    from rules.c07 import check_reader_arm
+    rp = repo.module('geophires_x/Parameter.py').functions.get('ReadParameter')
+    ctx.require(rp is not None, 'Parameter.ReadParameter not found')
+    n0 = len(ctx.obligations)
+    check_reader_arm(Renamed(ctx, {'V9': 'T8'}), rp, 'floatParameter', 'float')
+    ctx.floor('T8', len(ctx.obligations) - n0, 1, 'early returns of the float reader arm')
+    # "the per-well costs reported": cost lines of the report print the component their label names (shared with C09 W2)
+    from gxstat.report import writer_templates
+    from rules.c09 import check_label_lexicon, check_w1_w2
+    tpl = [t for t in writer_templates(repo, only=['Outputs', 'SUTRAOutputs']) if 'cost' in (t.label or '').lower()]
+    ctx.floor('T6', len(tpl), 25, 'cost lines of the report')
+    n0 = len(ctx.obligations)
+    check_label_lexicon(Renamed(ctx, {'W2': 'T6'}, key_filter=lambda k: True), tpl)
+    check_w1_w2(Renamed(ctx, {'W2': 'T6'}, key_filter=lambda k: True), tpl)
+    ctx.analysed['report_cost_lines'] = len(tpl)
+    ctx.undecided('numeric values of the cost correlations')
+    ctx.assume('cost lines with a literal label and no injection/production word are compared with the sibling writer by C09 W2 only')
